@@ -23,6 +23,10 @@ TESTS = {
                                 functions=['tarpc/src/client.rs::RequestDispatch, Channel::call, ResponseGuard (through the public API, hand-written gated transport)'],
                                 bound='up to 3 calls x 4 fates (answered, abandoned queued, abandoned after transmission, kept) x all fate orders x a dispatch poll or not after each step x capacity 1|2 x readiness gated|not x handles dropped|kept (200832 scenarios); oracles on the wire log (C01 routing, C03 cancel rules, C10 close rules, C14 sink contract)',
                                 why='replay search: source of concrete failing inputs when the deductive check is undecided (code rewritten into a shape the contracts cannot be checked against) or fails'),
+    'server_wire_bounded': dict(file='server_wire_bounded', fn='server_wire_scripts',
+                                functions=['tarpc/src/server.rs::BaseChannel, Requests, InFlightRequest::execute; tarpc/src/server/limits/requests_per_channel.rs::MaxRequests (through the public API, hand-written buffering transport)'],
+                                bound='peer scripts of <= 4 messages over {Req 7, Req 8, Cancel 7, Cancel 8} x a channel poll or not after each x handler release order x handlers finishing before the last message or at the end x sink gated|not x limit none|1 x half-close|not (149760 scenarios); oracles on the wire, handler invocation counts, flush state, in_flight_requests()',
+                                why='replay search: source of concrete failing inputs when the deductive check is undecided or fails'),
     'complete_all_bounded': dict(inrepo=True, file='client_table', fn='verif_native_complete_all_requests_bounded',
                                  functions=['tarpc/src/client/in_flight_requests.rs::complete_all_requests (+ its consuming loop)'],
                                  bound='every table of <= 3 entries over ids {0,1,2,u64::MAX} (15 tables)',
